@@ -120,12 +120,13 @@ def _fits(lo, hi):
 
 
 class SInt(object):
-    __slots__ = ('t', 'lo', 'hi')
+    __slots__ = ('t', 'lo', 'hi', 'tz')
 
     def __init__(self, t, lo=None, hi=None):
         self.t = t
         self.lo = lo
         self.hi = hi
+        self.tz = 0
 
     # -- helpers ---------------------------------------------------------
     @property
@@ -307,7 +308,9 @@ class SInt(object):
                 engine().side_obligation('no-overflow', back == self.t)
                 lo = hi = None
             return SInt(self.t << k, lo, hi)
-        return SInt(self.t * z3.IntVal(1 << k), lo, hi)
+        r = SInt(self.t * z3.IntVal(1 << k), lo, hi)
+        r.tz = k + getattr(self, 'tz', 0)          # known trailing zero bits (for  (a << k) | b  with  0 <= b < 2^k)
+        return r
 
     def __rlshift__(self, o):
         raise Unsupported('shift by a symbolic amount')
@@ -376,6 +379,11 @@ class SInt(object):
                 low = cv & -cv
                 if a.lo is not None and a.lo >= 0 and a.hi is not None and a.hi < low:
                     return SInt(a.t + z3.IntVal(cv), a.lo + cv, a.hi + cv)
+        for a, c in ((self, o2), (o2, self)):
+            tz = getattr(a, 'tz', 0)
+            if tz and c.lo is not None and c.lo >= 0 and c.hi is not None and c.hi < (1 << tz):
+                # the low tz bits of a are zero (also for negative a, in two's complement): no carries
+                return SInt(a.t + c.t, None if a.lo is None else a.lo + c.lo, None if a.hi is None else a.hi + c.hi)
         raise Unsupported('| in Int mode')
 
     __ror__ = __or__
@@ -1075,7 +1083,11 @@ class SByteArray(object):
     def __sym_len__(self):
         return self.data.length()
 
+    def __getitem__(self, idx):
+        r = self.data[idx]
+        return SByteArray(r) if isinstance(r, SBytes) else r
+
     def __eq__(self, o):
-        return self.data == SBytes.of(o)
+        return self.data == SBytes.of(o.data if isinstance(o, SByteArray) else o)
 
     __hash__ = None
